@@ -13,14 +13,14 @@ Init == MInit(LoaderSet, FlagSet, CauseSet, LenSet) /\ ops = <<>>
          /\ (loader \in {"load_full", "load_mem"} => flags = 0)
 Lab(a, name) == a /\ ops' = Append(ops, name)
 Next ==
-  \/ (PreCheck \/ Stat \/ Alloc \/ ReadFill \/ Wrap \/ Deser \/ Return) /\ UNCHANGED ops
+  \/ (Store \/ PreCheck \/ Stat \/ Alloc \/ ReadFill \/ Wrap \/ Deser \/ Return) /\ UNCHANGED ops
   \/ Lab(Move, "move") \/ Lab(BoxIt, "box") \/ Lab(Unbox, "unbox") \/ Lab(SendTo, "send") \/ Lab(SendBack, "back")
   \/ Lab(ShareArc, "arc") \/ Lab(Unshare, "unarc")
   \/ (ReaderEnter \/ ReaderLeave) /\ UNCHANGED ops
   \/ (DropS \/ DropB) /\ UNCHANGED ops
 
 Terminal == owner = "dropped" \/ (pcl = "done" /\ result # "ok")
-Beh == [loader |-> loader, flags |-> flags, cause |-> cause, flen |-> flen, result |-> result, ops |-> ops,
+Beh == [prior |-> prior, loader |-> loader, flags |-> flags, cause |-> cause, flen |-> flen, result |-> result, ops |-> ops,
         round |-> RoundOf(loader), kind |-> RegionKind(loader), dropped_in |-> IF ops # <<>> /\ ops[Len(ops)] = "send" THEN "thread" ELSE "here"]
 EmitM == Terminal => PrintT(ToJson(Beh))
 ====
